@@ -114,6 +114,7 @@ def int_binop(op, a, b):
     if isinstance(op, ast.LShift):
         if is_conc_int(b) and b.as_long() >= 0:
             return a * _pow2_const(b.as_long())
+        _BITS["used"] = True
         return shl_f(a, b)
     if isinstance(op, ast.BitOr):
         if is_conc_int(a) and is_conc_int(b):
@@ -122,6 +123,7 @@ def int_binop(op, a, b):
         r = _or_as_add(a, b)
         if r is not None:
             return r
+        _BITS["used"] = True
         return bor_f(a, b)
     if isinstance(op, ast.Pow):
         if is_conc_int(a) and is_conc_int(b) and b.as_long() >= 0:
@@ -166,7 +168,16 @@ def _or_as_add(a, b):
     return None
 
 
+_BITS = {"used": False}
+
+
 def bit_axioms(terms):
+    if not _BITS["used"]:
+        return []          # no bor/shl application was ever built in this process
+    return _bit_axioms(terms)
+
+
+def _bit_axioms(terms):
     """Axiom instances for bor/shl applications occurring in `terms` (A-BITS):
          shl(b,k) = b * pow2(k);  pow2(0)=1; pow2(k+7) = 128*pow2(k) is added by the user of pow2
          0<=a<pow2(k) & b>=0  =>  bor(a, shl(b,k)) = a + shl(b,k)
@@ -453,8 +464,26 @@ def values_equal(a: V, b: V):
     raise Unsupported(f"== on {a} and {b}")
 
 
+CLASS_KEY = {"fn": None}       # set by builtins: value -> z3 Int class code for VClass / symbolic classes, else None
+
+
+def _class_cmp(a, b):
+    f = CLASS_KEY["fn"]
+    if f is None:
+        return None
+    sym = lambda v: isinstance(v, VFunc) and v.kind in ("typeof", "symcls")      # noqa: E731
+    if (sym(a) and (sym(b) or isinstance(b, VClass))) or (sym(b) and isinstance(a, VClass)):
+        ka, kb = f(a), f(b)
+        if ka is not None and kb is not None:
+            return ka == kb
+    return None
+
+
 def values_identical(a: V, b: V):
     """z3 Bool for Python `is` on the modelled values (None, enum members, bools, classes, objects)."""
+    r = _class_cmp(a, b)
+    if r is not None:
+        return r
     if isinstance(a, VUnion):
         return simp(z3.Or(*[z3.And(g, values_identical(x, b)) for g, x in a.alts]))
     if isinstance(b, VUnion):
